@@ -267,6 +267,57 @@ def _index_loops(node):
     return node
 
 
+def _hoist_nested_accumulators(node):
+    """`d = {..., 'k': {}}` ... `d['k'][x] = v` / `d['k'].append(v)`  ->  `d__k_acc = {}`; `d = {..., 'k': d__k_acc}` ...
+    `d__k_acc[x] = v`: a collection filled through the entry of the dictionary that holds it is the collection filled
+    under a name of its own (the same object either way), which is the form the image rules read."""
+    pm = A.parent_map(node)
+    uses = {}
+    for x in A.walk_body(node):
+        if isinstance(x, ast.Name):
+            uses.setdefault(x.id, []).append(x)
+
+    def empty(v):
+        return _is_empty_dict(v) or (isinstance(v, (ast.List, ast.Dict)) and not (v.elts if isinstance(v, ast.List) else v.keys)) or \
+            (isinstance(v, ast.Call) and isinstance(v.func, ast.Name) and v.func.id in ("list", "dict") and not v.args and not v.keywords)
+
+    for name, occ in uses.items():
+        inits = [pm.get(x) for x in occ if isinstance(pm.get(x), ast.Assign) and len(pm.get(x).targets) == 1 and pm.get(x).targets[0] is x]
+        if len(inits) != 1 or sum(1 for x in occ if isinstance(x.ctx, ast.Store)) != 1 or not isinstance(inits[0].value, ast.Dict):
+            continue
+        init = inits[0]
+        for i, (k, v) in enumerate(zip(init.value.keys, init.value.values)):
+            key = A.const_str(k) if k is not None else None
+            if key is None or not empty(v):
+                continue
+            refs = [pm.get(x) for x in occ if isinstance(pm.get(x), ast.Subscript) and pm.get(x).value is x and A.const_str(pm.get(x).slice) == key]
+            if not refs or any(not isinstance(r.ctx, ast.Load) for r in refs):
+                continue
+            # filled through the entry: d['k'][..] = .. / d['k'].method(..)
+            filled = [r for r in refs if (isinstance(pm.get(r), ast.Subscript) and pm.get(r).value is r and isinstance(pm.get(r).ctx, ast.Store)) or
+                      (isinstance(pm.get(r), ast.Attribute) and pm.get(r).value is r and isinstance(pm.get(pm.get(r)), ast.Call) and pm.get(pm.get(r)).func is pm.get(r))]
+            if not filled:
+                continue
+            acc = "%s__%s_acc" % (name, re.sub(r"\W", "_", key))
+            if acc in uses:
+                continue
+            refset = {id(r) for r in refs}
+
+            class R(ast.NodeTransformer):
+                def visit_Subscript(self, n):
+                    if id(n) in refset:
+                        return ast.copy_location(ast.Name(id=acc, ctx=ast.Load()), n)
+                    return self.generic_visit(n)
+
+            first = ast.fix_missing_locations(ast.copy_location(ast.Assign(targets=[ast.Name(id=acc, ctx=ast.Store())], value=v, type_comment=None), init))
+            init.value.values[i] = ast.copy_location(ast.Name(id=acc, ctx=ast.Load()), v)
+            PM._rewrite_blocks(node, lambda st: [first, st] if st is init else [st])
+            R().visit(node)
+            ast.fix_missing_locations(node)
+            return _hoist_nested_accumulators(node)  # tables are stale: start over for a further one
+    return node
+
+
 def _plain(ck, fi):
     memo = ck.__dict__.setdefault("_c18_plain", {})
     key = (fi.qual, id(fi.node))
@@ -274,6 +325,7 @@ def _plain(ck, fi):
         node = copy.deepcopy(fi.node)
         try:
             PM._rewrite_blocks(node, _plain_stmt(fi.module, _literal_dicts(node)))
+            node = _hoist_nested_accumulators(node)
             node = _scalarise(node)
             node = _index_loops(node)
             changed = ast.dump(node) != ast.dump(fi.node)
@@ -382,11 +434,35 @@ def _branches(v):
     return [v]
 
 
+_DECIDED = "\u00a7decided"  # a test whose outcome is fixed by the values the path has put in: (_DECIDED, False) cannot be taken
+
+
+def _decided(t):
+    """Outcome of a test that no input can change once the path's own bindings are put in (`None is None`, `{} is
+    None`, a constant): True / False, None when it depends on something."""
+    def fresh(e):
+        return isinstance(e, (ast.Dict, ast.List, ast.Tuple, ast.Set, ast.JoinedStr, ast.ListComp, ast.DictComp, ast.SetComp)) or \
+            (isinstance(e, ast.Constant) and e.value is not None)
+    if isinstance(t, ast.Compare) and len(t.ops) == 1 and isinstance(t.ops[0], (ast.Is, ast.IsNot)):
+        l, r = t.left, t.comparators[0]
+        same = None
+        if A.is_none(l) and A.is_none(r):
+            same = True
+        elif (A.is_none(l) and fresh(r)) or (A.is_none(r) and fresh(l)):
+            same = False
+        if same is not None:
+            return same if isinstance(t.ops[0], ast.Is) else not same
+    return None
+
+
 def _atoms(t, positive):
     """Branch test taken with a polarity -> literals (text, polarity); `not`, `and` taken true / `or` taken false,
     `is not` / `!=` / `not in` are normalised away (same conventions as FA.conditions)."""
     if isinstance(t, ast.UnaryOp) and isinstance(t.op, ast.Not):
         return _atoms(t.operand, not positive)
+    d = _decided(t)
+    if d is not None:
+        return [(_DECIDED, d == positive)]
     if isinstance(t, ast.BoolOp) and ((isinstance(t.op, ast.And) and positive) or (isinstance(t.op, ast.Or) and not positive)):
         out = []
         for v in t.values:
@@ -448,7 +524,7 @@ def _replace(root, old, new):
 
 
 def _consistent(lits, extra) -> bool:
-    return not any((a[0], not a[1]) in lits for a in extra)
+    return not any((a[0], not a[1]) in lits or a == (_DECIDED, False) for a in extra)
 
 
 def _alts(v):
@@ -637,7 +713,7 @@ def _sym_paths(fa: FA, env0=None, stops=(), observe=None, cap=6000):
                 if not _consistent(lits, add) or not all(_consistent(add[:i], [x]) for i, x in enumerate(add)):
                     continue
                 seen[d] = seen.get(d, 0) + 1
-                dfs(d, seen, lits + [x for x in add if x not in lits], env, obs)
+                dfs(d, seen, lits + [x for x in add if x not in lits and x[0] != _DECIDED], env, obs)
                 seen[d] -= 1
 
     dfs(cfg.entry, {cfg.entry: 1}, [], dict(env0 or {}), [])
@@ -828,9 +904,19 @@ def _dump_entries(fa: FA):
         if isinstance(e, ast.Name):
             return {e.id}
         if isinstance(e, ast.Dict):
-            return {v.id for k, v in zip(e.keys, e.values) if k is None and isinstance(v, ast.Name)}
+            out = set()
+            for k, v in zip(e.keys, e.values):
+                if k is None:
+                    out |= bases(v)  # **x, **{k: v for k, v in x.items() if ...}
+            return out
         if isinstance(e, ast.Call) and isinstance(e.func, ast.Name) and e.func.id == "dict":
-            return {a_.id for a_ in e.args if isinstance(a_, ast.Name)} | {k.value.id for k in e.keywords if k.arg is None and isinstance(k.value, ast.Name)}
+            out = set()
+            for a_ in e.args:
+                out |= bases(a_)
+            for k in e.keywords:
+                if k.arg is None:
+                    out |= bases(k.value)
+            return out
         if isinstance(e, ast.Call) and A.call_attr(e) == "copy" and isinstance(A.call_recv(e), ast.Name) and not e.args:
             return {A.call_recv(e).id}
         if isinstance(e, ast.BinOp) and isinstance(e.op, ast.BitOr):
@@ -948,6 +1034,68 @@ def _dump_entries(fa: FA):
         elif isinstance(st, ast.AugAssign) and isinstance(st.target, ast.Name) and st.target.id in names and isinstance(st.op, (ast.Add, ast.BitOr)):
             from_mapping(expanded(st.value, st), st, cond(st), "store")
     return entries
+
+
+def _option_fields(ck, cls, options):
+    """{option: fields of the backend that hold it}: a field whose constructor-assigned value derives from the
+    constructor argument of the option, anywhere along the chain of base constructors (argument names are kept along
+    the chain); of several fields fed by an option, those fed by the fewest options (the metadata path falls back to the
+    data path, so it is fed by both options -- the data path is held by the field fed by `path` alone)."""
+    feeds = {}
+    for c in ck.repo.mro(cls):
+        init = c.methods.get("__init__")
+        if init is None:
+            continue
+        fa = _FA(ck, init)
+        for st in fa.stmts((ast.Assign, ast.AnnAssign)):
+            ids = fa.nodes(st)
+            for (t, v) in PM._flat_targets(st):
+                f = A.dotted(t) if isinstance(t, ast.Attribute) else None
+                if not (f and f.startswith("self.") and f.count(".") == 1) or v is None or not ids:
+                    continue
+                try:
+                    atoms = fa.deps(v, ids[0])
+                except AnalysisError:
+                    continue
+                ks = {ARG_TO_KEY.get(a_[6:], a_[6:]) for a_ in atoms if a_.startswith("param:")} & set(options)
+                if ks:
+                    feeds.setdefault(f[5:], set()).update(ks)
+    out = {}
+    for k in options:
+        fs = [f for f, ks in feeds.items() if k in ks]
+        if fs:
+            least = min(len(feeds[f]) for f in fs)
+            out[k] = {f for f in fs if len(feeds[f]) == least}
+    return out
+
+
+def _self_fields_read(fa, e, st):
+    """First-level fields of self an expression reads (locals expanded)."""
+    try:
+        e = fa.expand(e, (fa.nodes(st) or [None])[0])
+    except AnalysisError:
+        pass
+    out = set()
+    for x in ast.walk(e):
+        if isinstance(x, ast.Attribute) and isinstance(x.value, ast.Name) and x.value.id == "self":
+            out.add(x.attr)
+    return out
+
+
+def _dumped_from_fields(ck, R1, cls, td, entries, options):
+    holders = _option_fields(ck, cls, options)
+    for e in entries:
+        if e.key not in holders or e.value is None:
+            continue
+        got = _self_fields_read(td, e.value, e.stmt)
+        if not got:
+            continue
+        okh = bool(got & holders[e.key])
+        ck.ob(R1, "%s::dumped-from-its-field::%s" % (cls.qual, e.key), okh,
+              "option %r is dumped from the field that holds it" % e.key if okh else
+              "to_dict writes option %r from %s, while the constructor keeps that option in %s: the environment rebuilt from the dump "
+              "gets another option's value for it" % (e.key, sorted("self." + g for g in got), sorted("self." + h for h in holders[e.key])),
+              td.where(e.stmt))
 
 
 # =====================================================================================================
@@ -1186,6 +1334,7 @@ def _first_match(ck, R4):
     why = None
     where = gc.where()
     lazy_ok = set()  # texts of `next((r.clusters[name] for r in self.repos if name in r.clusters), None)`: first match by construction
+    eager_ok = set()  # texts of `[r.clusters[name] for r in self.repos if name in r.clusters]`: all hits, in repository order
     if not over_repos:
         comp = [x for x in A.walk_body(gc.node) if isinstance(x, (ast.ListComp, ast.GeneratorExp, ast.SetComp, ast.DictComp))
                 and any(A.dotted(y) == "self.repos" for y in ast.walk(x))]
@@ -1195,6 +1344,16 @@ def _first_match(ck, R4):
             lv = A.norm(g.target)
             shape = isinstance(x, ast.GeneratorExp) and isinstance(call, ast.Call) and A.call_dotted(call) == "next" and len(call.args) == 2 \
                 and call.args[0] is x and not call.keywords and len(x.generators) == 1
+            if not shape and isinstance(x, ast.ListComp) and len(x.generators) == 1:
+                # every hit collected in repository order: what the function then answers with is judged per path below
+                # (the first element where there is one, None where there is none)
+                if A.norm(g.iter) != "self.repos":
+                    why = "the repositories are searched as `%s`, not in self.repos order" % A.norm(g.iter)
+                elif not (A.norm(x.elt) == "%s.clusters[%s]" % (lv, nm) and [A.norm(c) for c in g.ifs] == ["%s in %s.clusters" % (nm, lv)]):
+                    why = "`%s` does not collect the clusters of the repositories defining the name" % A.short(x, 60)
+                else:
+                    eager_ok.add(A.norm(x))
+                continue
             ck.need(shape, "get_cluster: the search over self.repos is a comprehension of a shape this rule cannot decide")
             if not A.is_none(call.args[1]):
                 why = "without a hit the function returns `%s`, not None" % A.short(call.args[1], 40)
@@ -1204,7 +1363,7 @@ def _first_match(ck, R4):
                 why = "`%s` does not yield the cluster of the first repository defining the name" % A.short(x, 60)
             else:
                 lazy_ok.add(A.norm(call))
-    if lazy_ok or (why and not over_repos):
+    if lazy_ok or eager_ok or (why and not over_repos):
         pass
     elif len(over_repos) != 1:
         why = "%d loops over self.repos" % len(over_repos)
@@ -1291,6 +1450,15 @@ def _first_match(ck, R4):
             continue
         for (l, v) in _value_cases(ck, gc, p.lits, p.value, p.env):
             if A.norm(v) in lazy_ok and ("%s is None" % nm, False) in l:
+                continue
+            # the hits collected first: the first of them where there is one, None where there is none
+            if any(A.norm(v) == c_ + "[0]" and (c_, True) in l for c_ in eager_ok) and ("%s is None" % nm, False) in l:
+                continue
+            if A.is_none(v) and any((c_, False) in l for c_ in eager_ok) and ("%s is None" % nm, False) in l:
+                continue
+            if any(c_ in A.norm(v) for c_ in eager_ok):
+                why = "of the clusters found in repository order the function answers with `%s`, not with the first" % A.short(v, 60).replace(
+                    next(c_ for c_ in eager_ok if c_ in A.norm(v)), "<hits>")
                 continue
             if not (("%s is None" % nm, True) in l and A.norm(v) == "self.default_cluster"):
                 why = "`%s` is returned without searching the repositories" % A.short(v, 50)
@@ -1717,13 +1885,28 @@ def _image(fa, e, at, env, srcs, depth=8):
     return None
 
 
+def _value_roots(fa, e, at, depth=4):
+    """What a value can be, read through conditional expressions and through the locals it is handed on by (every
+    definition of the local that reaches the place): the expressions at the far end."""
+    out = []
+    for b in _branches(e):
+        if isinstance(b, ast.Name) and b.id not in fa.fi.params and depth > 0 and at is not None:
+            vals = [(d.value, d.node) for d in fa.df.reaching(at, b.id) if d.kind == "assign" and d.value is not None]
+            if vals:
+                for (v, n_) in vals:
+                    out += _value_roots(fa, v, n_, depth - 1)
+                continue
+        out.append(b)
+    return out
+
+
 def _field_shape(ck, cls, init_fa, field):
     """How a field holds objects that dump themselves: ('one' | 'map' | 'seq', element class) or None.  From the
     declared type of the field, else the annotation of the constructor parameter that is stored in it."""
     texts = [ck.repo.field_type(cls, field)]
     for s in init_fa.stmts(ast.Assign):
         if any(A.dotted(t) == "self." + field for t in s.targets):
-            for b in _branches(s.value):
+            for b in _value_roots(init_fa, s.value, (init_fa.nodes(s) or [None])[0]):
                 if isinstance(b, ast.Name) and b.id in init_fa.fi.params:
                     texts.append(init_fa.fi.param_annotation(b.id))
     for t in texts:
@@ -1776,7 +1959,8 @@ def check_nested_dumps(ck, R, reads_of):
         for s in init.stmts(ast.Assign):
             for t in s.targets:
                 d = A.dotted(t) or ""
-                if d.startswith("self.") and d.count(".") == 1 and any(isinstance(b, ast.Name) and b.id in init.fi.params and b.id != "self" for b in _branches(s.value)):
+                if d.startswith("self.") and d.count(".") == 1 and any(isinstance(b, ast.Name) and b.id in init.fi.params and b.id != "self"
+                                                                       for b in _value_roots(init, s.value, (init.nodes(s) or [None])[0])):
                     fields.add(d[5:])
         for field in sorted(fields):
             shape = _field_shape(ck, cls, init, field)
@@ -2230,6 +2414,9 @@ def check(ck):
                 ck.ob(R1, "%s::option-dumped::%s" % (cls.qual, opt), opt in dumped,
                       "documented option %r is written by to_dict" % opt if opt in dumped else
                       "documented option %r is not written by to_dict: an environment rebuilt from its dump loses it" % opt, td.where())
+            # what is dumped under an option is read off the field that holds that option (not off the field of another
+            # option: a dump that writes the data path as the metadata path rebuilds a different backend)
+            _dumped_from_fields(ck, R1, cls, td, entries, doc)
             if init is not None:
                 for p in init.params:
                     if p in ("self", "config"):
@@ -2367,7 +2554,9 @@ def check(ck):
         reads = _config_reads(ck, cls, membership=True)
         reads_of[clsname] = reads
         td = _FA(ck, cls.methods["to_dict"])
-        dumped = {e.key for e in _dump_entries(td)}
+        centries = _dump_entries(td)
+        dumped = {e.key for e in centries}
+        _dumped_from_fields(ck, R1, cls, td, centries, reads)
         ok = reads == dumped
         ck.ob(R1, cls.qual + "::read-equals-dumped", ok, "%s reads and dumps the same keys %s" % (clsname, sorted(reads)) if ok else
               "%s reads %s from its configuration but dumps %s" % (clsname, sorted(reads - dumped) or "{}", sorted(dumped - reads) or "{}"), td.where())
